@@ -10,6 +10,7 @@ def run(ctx):
     ctx.pyvc(W.UNITS, MONITORS)
     tabs = I.load_tables(REPO)
     I.release_pairing(ctx, tabs)
+    I.cfi_twin_keeps_release(ctx, tabs)
     from cfront import helpers as H
     H.run(ctx, tabs, names=["ShroudStrAlloc", "ShroudStrFree", "ShroudStrArrayAlloc", "ShroudStrArrayFree", "copy_string", "copy_array"])
     ctx.trusted.append("mini-C front end for the allocation helpers: every block allocated is large enough for every write, "
@@ -25,6 +26,25 @@ def run(ctx):
         "wrapp.py (CPython reference counts and capsule destructors)",
         "the scan for a wrapped destructor in compute_idtor (slice starts after it)",
     ]
+    # known finding replayed on the real code (end-to-end, LeakSanitizer)
+    import json
+    for k in ctx.known:
+        if k["status"] == "open" and k.get("e2e"):
+            try:
+                res = ctx.monitor("m_e2e", "replay", json.dumps(k["e2e"]))
+            except Exception as e:
+                res = {"violation": None, "error": str(e)}
+            ctx.extra.setdefault("known_finding_replays", {})[k["id"]] = res.get("violation") or res.get("error")
+    # bounded stand-in (never counted as proved): upstream's compiled regression on freshly generated wrappers under
+    # ASan/UBSan (use after free, double free, invalid free, out-of-bounds in wrappers and helpers)
+    r = ctx.monitor("m_e2e", "psearch", 100, ctx.seed, 16)
+    ctx.bounded.append({"monitor": "m_e2e", "inputs_tried": r["tried"], "violation": r["violation"],
+                        "kind": "bounded: the 22 Fortran test programs of regression/run built against wrappers generated "
+                                "now (C/C++ with -fsanitize=address,undefined, Fortran with -fbounds-check) and run; leak "
+                                "reports are not used (the upstream test programs do not delete what they construct)",
+                        "bound": "%d test programs" % r["tried"]})
+    if r["violation"]:
+        ctx.violation("bounded/m_e2e", {"inputs": r["inputs"], "observed": r["violation"]}, True)
     if ctx.tier == "thorough":
         r = ctx.monitor("m_capsule", "search", 60000, ctx.seed)
         ctx.bounded.append({"monitor": "m_capsule", "inputs_tried": r["tried"], "violation": r["violation"],
